@@ -195,6 +195,7 @@ impl Scripted {
     }
 }
 
+#[derive(Clone)]
 pub struct ExecCfg {
     /// one more choice point at the start: some node is unreachable (every request to it is
     /// refused) until a chosen later moment; it then learns everything through repair
@@ -223,6 +224,8 @@ pub struct ExecCfg {
     /// concurrency block only: every direct replication RPC and every batch is lost, so
     /// that only the anti-entropy exchanges can bring the nodes together
     pub lose_all_direct: bool,
+    /// every distributor batch is lost while direct messages are delivered (concurrency block)
+    pub lose_batches: bool,
     pub n_nodes: usize,
     pub mem_store: bool,
     pub allow_restart: bool,
@@ -272,6 +275,7 @@ where
         let chooser = chooser.clone();
         let repair_rpcs_may_fail = repair_rpcs_may_fail.clone();
         let lose_all_direct = cfg.lose_all_direct;
+        let lose_batches = cfg.lose_batches;
         datacake_rpc::verif::set_policy(move |_dst, path| {
             if !path.contains("ConsistencyService") {
                 // repair RPCs: the closing exchanges complete; an exchange in the middle of
@@ -280,6 +284,9 @@ where
                     return NetVerdict::DropRequest;
                 }
                 return NetVerdict::Deliver;
+            }
+            if lose_batches && path.contains("BatchPayload") {
+                return NetVerdict::DropRequest;
             }
             if lose_all_direct {
                 // anti-entropy only: every direct message and every batch is lost
@@ -601,6 +608,14 @@ pub fn run_concurrent(cfg: &ExecCfg, pair: &[OpSpec], prefix: &[usize]) -> (Run,
                     NetVerdict::Deliver
                 }
             });
+        } else if cfg.lose_batches {
+            datacake_rpc::verif::set_policy(|_dst, path| {
+                if path.contains("BatchPayload") {
+                    NetVerdict::DropRequest
+                } else {
+                    NetVerdict::Deliver
+                }
+            });
         }
         for (pi, op) in cfg.prelude.iter().enumerate() {
             wall.tick();
@@ -703,6 +718,7 @@ pub fn case_json(cfg: &ExecCfg, ops: &[OpSpec], run: &Run, out: &Outcome) -> J {
         .set("choices", run.choices.clone())
         .set("concurrent", out.concurrent)
         .set("lose_all_direct", cfg.lose_all_direct)
+        .set("lose_batches", cfg.lose_batches)
         .set("fine_grained", cfg.fine_grained)
         .set("allow_unreachable_node", cfg.allow_unreachable_node)
         .set("faulty_repairs", cfg.faulty_repairs)
@@ -731,6 +747,7 @@ pub fn judge(cfg: &ExecCfg, ops: &[OpSpec], run: &Run, out: &Outcome, st: &mut S
     let repair_lost = out.events.iter().any(|e| e.contains("of that exchange were lost"));
     let shape = match (restarted, lost) {
         _ if cfg.lose_all_direct => "all-direct-replication-lost",
+        _ if cfg.lose_batches => "all-batches-lost",
         _ if repair_lost => "after-a-failed-repair-exchange",
         (true, _) => "with-restart",
         (false, true) => "with-message-loss",
@@ -822,12 +839,12 @@ pub fn run(tier: Tier) -> i32 {
     let mut summary = vkit::e2::Summary::default();
     let mut blocks_json = Vec::new();
 
-    let two = |mem| ExecCfg { allow_unreachable_node: false, faulty_repairs: false, time_jumps: false, script: vec![], skew_minutes: vec![], fine_grained: false, prelude: vec![], lose_all_direct: false, n_nodes: 2, mem_store: mem, allow_restart: true, check_side_conditions_every_event: false };
+    let two = |mem| ExecCfg { allow_unreachable_node: false, faulty_repairs: false, time_jumps: false, script: vec![], skew_minutes: vec![], fine_grained: false, prelude: vec![], lose_all_direct: false, lose_batches: false, n_nodes: 2, mem_store: mem, allow_restart: true, check_side_conditions_every_event: false };
     let mut blocks: Vec<Block> = Vec::new();
     let al2 = op_alphabet(2, &[Consistency::None, Consistency::All]);
     let al2_thin: Vec<OpSpec> = al2.iter().copied().filter(|o| !(o.level == Consistency::All && matches!(o.kind, Kind::Put(2) | Kind::Del(2)))).collect();
     let al3 = op_alphabet(3, &[Consistency::None, Consistency::All]);
-    let three = |restart| ExecCfg { allow_unreachable_node: false, faulty_repairs: false, time_jumps: false, script: vec![], skew_minutes: vec![], fine_grained: false, prelude: vec![], lose_all_direct: false, n_nodes: 3, mem_store: false, allow_restart: restart, check_side_conditions_every_event: false };
+    let three = |restart| ExecCfg { allow_unreachable_node: false, faulty_repairs: false, time_jumps: false, script: vec![], skew_minutes: vec![], fine_grained: false, prelude: vec![], lose_all_direct: false, lose_batches: false, n_nodes: 3, mem_store: false, allow_restart: restart, check_side_conditions_every_event: false };
     if tier.is_thorough() {
         blocks.push(Block { name: "N=2, 2 operations, <=3 deviations", cfg: two(false), histories: sequences(&al2, 2), bound: 3 });
         blocks.push(Block { name: "N=2, 3 operations, <=2 deviations", cfg: two(false), histories: sequences(&al2, 3), bound: 2 });
@@ -1032,7 +1049,7 @@ pub fn run(tier: Tier) -> i32 {
 
     // ---- concurrency block
     {
-        let ccfg = ExecCfg { allow_unreachable_node: false, faulty_repairs: false, time_jumps: false, script: vec![], skew_minutes: vec![], fine_grained: tier.is_thorough(), prelude: vec![], lose_all_direct: false, n_nodes: 2, mem_store: false, allow_restart: false, check_side_conditions_every_event: false };
+        let ccfg = ExecCfg { allow_unreachable_node: false, faulty_repairs: false, time_jumps: false, script: vec![], skew_minutes: vec![], fine_grained: tier.is_thorough(), prelude: vec![], lose_all_direct: false, lose_batches: false, n_nodes: 2, mem_store: false, allow_restart: false, check_side_conditions_every_event: false };
         let base = op_alphabet(2, &[Consistency::None, Consistency::All]);
         let mut pairs: Vec<Vec<OpSpec>> = Vec::new();
         for a in &base {
@@ -1050,7 +1067,7 @@ pub fn run(tier: Tier) -> i32 {
         }
         let before = summary.executions;
         let conc_bound = std::env::var("VERIF_C01_CONC_BOUND").ok().and_then(|v| v.parse().ok()).unwrap_or(tier.pick(3usize, 4));
-        let lossy = ExecCfg { allow_unreachable_node: false, faulty_repairs: false, time_jumps: false, script: vec![], skew_minutes: vec![], fine_grained: false, prelude: vec![], lose_all_direct: true, n_nodes: 2, mem_store: false, allow_restart: false, check_side_conditions_every_event: false };
+        let lossy = ExecCfg { allow_unreachable_node: false, faulty_repairs: false, time_jumps: false, script: vec![], skew_minutes: vec![], fine_grained: false, prelude: vec![], lose_all_direct: true, lose_batches: false, n_nodes: 2, mem_store: false, allow_restart: false, check_side_conditions_every_event: false };
         // the repair races additionally start from a keyspace that already exists at the source
         // and has not been synchronised yet (otherwise the repairing node would not fetch it)
         let with_prelude = |base: &ExecCfg| ExecCfg {
@@ -1061,7 +1078,7 @@ pub fn run(tier: Tier) -> i32 {
             skew_minutes: vec![],
             fine_grained: false,
             prelude: vec![OpSpec { node: 1, kind: Kind::Put(2), level: Consistency::None }],
-            lose_all_direct: base.lose_all_direct,
+            lose_all_direct: base.lose_all_direct, lose_batches: false,
             n_nodes: 2,
             mem_store: false,
             allow_restart: false,
@@ -1089,6 +1106,26 @@ pub fn run(tier: Tier) -> i32 {
         for second in [repair(1, 0), OpSpec { node: 1, kind: Kind::Del(2), level: Consistency::None }, OpSpec { node: 0, kind: Kind::Put(1), level: Consistency::None }] {
             work.push((vec![repair(0, 1), second], 4));
         }
+        // a repair exchange racing with a *directly replicated* write at the node being read:
+        // the direct message can land at the repairing node between its `Diff` and the bulk
+        // request that applies the difference, so that the batch carries a document the node
+        // already holds next to one it lacks; every distributor batch is lost, so the lacking
+        // one can only arrive through this and later exchanges
+        let direct_p5 = ExecCfg { lose_batches: true, fine_grained: true, ..with_prelude(&ccfg) };
+        let direct_p6 = ExecCfg {
+            prelude: vec![
+                OpSpec { node: 1, kind: Kind::Put(1), level: Consistency::All },
+                OpSpec { node: 1, kind: Kind::Put(2), level: Consistency::All },
+                OpSpec { node: 1, kind: Kind::Del(2), level: Consistency::None },
+            ],
+            ..direct_p5.clone()
+        };
+        for kind in [Kind::Put(1), Kind::Del(1), Kind::PutMany, Kind::DelMany] {
+            work.push((vec![repair(0, 1), OpSpec { node: 1, kind, level: Consistency::All }], 5));
+        }
+        for kind in [Kind::Del(1), Kind::Put(1), Kind::DelMany] {
+            work.push((vec![repair(0, 1), OpSpec { node: 1, kind, level: Consistency::All }], 6));
+        }
         if only.is_some() {
             work.clear();
         }
@@ -1101,6 +1138,8 @@ pub fn run(tier: Tier) -> i32 {
                 1 => &lossy,
                 2 => &ccfg_p,
                 4 => &lossy_p3,
+                5 => &direct_p5,
+                6 => &direct_p6,
                 _ => &lossy_p,
             };
             let mut st = Stats::default();
@@ -1213,6 +1252,7 @@ pub fn replay(case: &J) -> i32 {
         fine_grained: case.get("fine_grained").and_then(|v| v.as_bool()).unwrap_or(false),
         prelude: case.get("prelude").and_then(|v| v.as_arr()).unwrap_or(&[]).iter().filter_map(|o| al_for_prelude.iter().copied().find(|a| op_json(a).as_str() == o.as_str())).collect(),
         lose_all_direct: case.get("lose_all_direct").and_then(|v| v.as_bool()).unwrap_or(false),
+        lose_batches: case.get("lose_batches").and_then(|v| v.as_bool()).unwrap_or(false),
         n_nodes,
         mem_store: case.get("store").and_then(|v| v.as_str()) == Some("MemStore"),
         allow_restart: case.get("restart_events_enabled").and_then(|v| v.as_bool()).unwrap_or(true),
